@@ -100,8 +100,8 @@ func (st tlcpStack) run(cc cliCfg, sc srvCfg, rounds int) []hsResult {
 		ce, se := pair.StreamPipe()
 		c := tlcp.Client(ce, cu)
 		s := tlcp.Server(se, su)
-		cerr, serr, timedOut := runBoth(c.Handshake, s.Handshake, func() { ce.Close() }, func() { se.Close() }, 10*time.Second)
-		res := hsResult{timeout: timedOut}
+		cerr, serr, cHung, sHung := runBoth(c.Handshake, s.Handshake, func() { ce.Close() }, func() { se.Close() }, 10*time.Second)
+		res := hsResult{cHung: cHung, sHung: sHung}
 		res.c = tlcpState(c, cerr, [2]*pki.Leaf{srvSig, srvEnc})
 		res.s = tlcpState(s, serr, [2]*pki.Leaf{cliSig, cliEnc})
 		if res.c.ok && res.s.ok {
